@@ -20,7 +20,7 @@ let () = iter_lines (fun l ->
       let f = { fi_pos = a.(0); fi_pattern = a.(1); fi_row = a.(2); fi_num_rows = a.(3); fi_frame = a.(4); fi_speed = a.(5); fi_bpm = a.(6);
                 fi_frame_time = a.(7); fi_buffer_size = a.(8); fi_total_size = a.(9); fi_loop_count = a.(10);
                 fi_virt_channels = a.(11); fi_virt_used = a.(12); fi_sequence = a.(13) } in
-      let bad = List.filter (fun (_, b) -> not b) ["position", position_okb !ms f; "tempo", tempo_okb f; "buffer", buffer_okb !oc f; "voices", voices_okb f; "sequence", sequence_okb !ms f] in
+      let bad = List.filter (fun (_, b) -> not b) ["position", position_okb !ms f; "tempo", tempo_okb f; "buffer", buffer_okb !oc f; "frametime", frametime_okb !oc f; "voices", voices_okb f; "sequence", sequence_okb !ms f] in
       let s = if bad = [] then "ok" else "BAD " ^ String.concat "," (List.map fst bad) in
       print_endline (s ^ (if buffer_bytes_within_limit f then "" else " BYTES"))
   | _ -> print_endline "?")
